@@ -482,6 +482,11 @@ func (d *deployment) synth(t reflect.Type, v variant, rng *kernel.RNG, depth int
 		return d.poolTx[v.addr].Hash()
 	case "aquaapi.SendTxArgs":
 		return d.sendArgs(v.addr)
+	case "types.Transaction":
+		// a complete transaction object (the account's pending one, signed by the harness)
+		return d.poolTx[v.addr]
+	case "types.Header":
+		return map[string]any{}
 	case "aquaapi.CallArgs":
 		return map[string]any{"from": v.addr, "to": d.other}
 	case "hexutil.Bytes":
